@@ -3,7 +3,7 @@
     the whole-history theorem of C20 applies ([conformsb], per traveller, against the model's state
     just before the operation).  A history in which every operation conforms is one the theorem covers. *)
 From Coq Require Import ZArith List Bool Floats.
-From Flap Require Import Model.Num Model.NumF Model.TripHistory Model.Promises Model.Predictor Model.Engine
+From Flap Require Import Model.Num Model.NumF Model.TripHistory Model.Promises Model.Predictor Model.Engine Model.Bot
   Run.RunTH Run.RunEngine Proofs.UpdateAllP Proofs.HistoryP Proofs.HistoryEngineP.
 Import ListNotations.
 Open Scope Z_scope.
@@ -33,6 +33,19 @@ Definition op_conformsb (c : clocks) (e : engine NumF) (o : eop) : bool * clocks
       ((now mod SecondsInDay =? 0) &&
        forallb (fun kt => conformsb (pMaxStack p) (clk_get c (fst kt)) (snd kt) (HistoryP.EUpdate p (share_of e) now)) (e_table e),
        map (fun kt => (fst kt, now)) (e_table e) ++ c)
+  | ESubmitB k f debit _ =>
+      let g := flight_of f in
+      (key_okb k && conformsb (pMaxStack p) (clk_get c k) (get_create e k (fstart g)) (ECheckin g (fstart g) (a_pc a) p debit), (k, fstart g) :: c)
+  | EBotPlan k now day len from to dout din _ =>
+      (* the day the weights chose is one of the days prepareWeights offers, and the planning of the two
+         flights whenWillWeFly hands to Propose follows the discipline *)
+      let offered := existsb (Z.eqb day) (prepare_days (t_book (get_create e k now)) (day_of now) len (pMaxDays p)) in
+      match plan_args e (bot_planned_flights (N:=NumF) (day * SecondsInDay) len from to (fl dout) (fl din)) 0 now with
+      | inl (ts, te', d, tr) =>
+          (offered && key_okb k && (0 <? day) &&
+           conformsb (pMaxStack p) (clk_get c k) (get_create e k now) (EPlan ts te' d tr now (as_predictor (a_pred a))), (k, now) :: c)
+      | inr _ => (offered, c)
+      end
   | EEndTrip _ _ | EReopen _ _ => (false, c)                  (* the bot never closes or reopens a trip itself *)
   | _ => (true, c)
   end.
